@@ -23,7 +23,7 @@ def explore(ck, label="gp_reference", focus="all"):
     return r.printed
 
 
-def regressor(pb, variant="auto", order=None, xint=False, units=0):
+def regressor(pb, variant="auto", order=None, xint=False, units=0, xshift=0.0):
     """variant: 'err' (y_err = sqrt of the diagonal), 'cov' (y_cov matrix), 'covlist' (y_cov as nested lists), 'errlist', 'none'"""
     from inference.gp import GpRegressor
     X = np.array(pb["X"], dtype=float)
@@ -41,6 +41,8 @@ def regressor(pb, variant="auto", order=None, xint=False, units=0):
         y, sig = y * c_, sig * c_ * c_
         hp[:len(mth)] *= c_
         hp[len(mth)] += np.log(c_)
+    if xshift:
+        X = X + xshift               # the whole problem translated (whole-number coordinates stay exact in doubles)
     if xint:
         X = X.astype(int)            # whole-number coordinates given as an integer array
     kw = {}
